@@ -7,7 +7,7 @@
 use crate::entropy::Mode;
 use crate::guard::Unwind;
 use crate::rng::{hex, unhex};
-use crate::sched::{run_threads, Handle, SchedStats};
+use crate::sched::{Handle, SchedStats};
 use crate::variant::Variant;
 use crate::world::{self, KeygenTrace, OpTrace, SignPlan};
 use serde_json::{json, Value};
@@ -103,6 +103,8 @@ pub struct WorldPlan {
     pub switch_exp: Option<u32>,
     pub boundary: u32,
     pub threads: Vec<Vec<Op>>,
+    /// aligned operation starts with a dense prologue: (yield points, exponent); see `sched::SchedOpts`
+    pub align: Option<(u32, u32)>,
 }
 
 impl WorldPlan {
@@ -114,6 +116,7 @@ impl WorldPlan {
             "sched_seed": self.sched_seed,
             "switch_exp": self.switch_exp,
             "boundary": self.boundary,
+            "align": self.align.map(|(y, e)| vec![y, e]),
             "threads": self.threads.iter().map(|t| t.iter().map(|o| o.to_json()).collect::<Vec<_>>()).collect::<Vec<_>>(),
         })
     }
@@ -129,6 +132,7 @@ impl WorldPlan {
             sched_seed: v.get("sched_seed")?.as_u64()?,
             switch_exp: v.get("switch_exp").and_then(|x| x.as_u64()).map(|x| x as u32),
             boundary: v.get("boundary")?.as_u64()? as u32,
+            align: v.get("align").and_then(|a| a.as_array()).and_then(|a| Some((a.get(0)?.as_u64()? as u32, a.get(1)?.as_u64()? as u32))),
             threads: v
                 .get("threads")?
                 .as_array()?
@@ -141,6 +145,7 @@ impl WorldPlan {
         let mut p = self.clone();
         p.switch_exp = None;
         p.boundary = 0;
+        p.align = None;
         p
     }
     pub fn ops_total(&self) -> usize {
@@ -234,7 +239,11 @@ pub fn execute<V: Variant>(plan: &WorldPlan, keys: Keys<V>) -> (Vec<Result<Vec<O
             Box::new(move |h: Rc<Handle>| thread_body::<V>(ops, keys, h)) as Box<dyn FnOnce(Rc<Handle>) -> Vec<OpResult> + Send>
         })
         .collect();
-    run_threads(plan.sched_seed, plan.switch_exp, plan.boundary, bodies)
+    let opts = match plan.align {
+        Some((y, e)) => crate::sched::SchedOpts { align: true, dense_yields: y, dense_exp: e },
+        None => crate::sched::SchedOpts::default(),
+    };
+    crate::sched::run_threads_opts(plan.sched_seed, plan.switch_exp, plan.boundary, opts, bodies)
 }
 
 /// Regenerate the shared keys of a plan from their seeds (replay path).
